@@ -83,10 +83,11 @@ struct Runner {
     bool run_case(char type, const uint8_t *d, size_t n, bool count = true) {
         note_scratch(type, d, n);
         cx.begin(); cx.type = type;
-        Choice c(d, n);
+        Choice c(d, n); c.set_tail(cx.tailmode);
         alarm(case_alarm);
         vf_prop.run(type, c, cx);
         alarm(0);
+        if (c.pos > c.n) cx.label(c.pos > 2 * c.n + 16 ? "stream:mostly-tail" : "stream:exhausted"); else cx.label("stream:within");
         if (count && searching) {
             st.evaluations++;
             for (auto &l : cx.labels) st.labels[l]++;
@@ -98,7 +99,7 @@ struct Runner {
                 if (fresh && st.samples.size() < st.max_samples && (st.distinct.size() % 97 == 1 || st.samples.empty())) {
                     Ctx saved = cx;
                     cx.dump = true; cx.begin(); cx.type = type;
-                    Choice c2(d, n); vf_prop.run(type, c2, cx);
+                    Choice c2(d, n); c2.set_tail(cx.tailmode); vf_prop.run(type, c2, cx);
                     st.samples.push_back(fmt("type=%c bytes=%zu\n", type, n) + cx.desc + "labels: " + [&] { std::string s; for (auto &l : saved.labels) s += l + " "; return s; }());
                     cx = saved; cx.dump = false;
                 }
@@ -117,7 +118,7 @@ struct Runner {
     std::string describe(char type, const std::vector<uint8_t> &b) {
         Ctx saved = cx;
         cx.dump = true; cx.begin(); cx.type = type;
-        Choice c(b.data(), b.size()); vf_prop.run(type, c, cx);
+        Choice c(b.data(), b.size()); c.set_tail(cx.tailmode); vf_prop.run(type, c, cx);
         std::string s = cx.desc;
         cx = saved;
         return s;
